@@ -241,7 +241,9 @@ def lean_stage(prop_modules, extra_targets=()):
         finally:
             os.unlink(tf.name)
         res.log += r.stdout + r.stderr
-        for m in re.finditer(r"THEOREM (\S+) AXIOMS \[(.*?)\]", r.stdout):
+        n_before = len(res.theorems)
+        # the pretty-printer wraps long messages: match across line breaks, and cross-check the count the audit command reports
+        for m in re.finditer(r"THEOREM\s+(\S+)\s+AXIOMS\s+\[(.*?)\]", r.stdout, flags=re.S):
             axs = [a.strip() for a in m.group(2).split(",") if a.strip()]
             res.theorems[m.group(1)] = axs
             bad = [a for a in axs if a not in ALLOWED_AXIOMS]
@@ -249,9 +251,13 @@ def lean_stage(prop_modules, extra_targets=()):
                 res.bad_axioms[m.group(1)] = bad
                 res.ok = False
                 res.failed.append(f"{m.group(1)} depends on non-standard axioms {bad}")
-        if "AUDIT-END" not in r.stdout:
+        mend = re.search(r"AUDIT-END\s+\S+\s+(\d+)", r.stdout)
+        if not mend:
             res.ok = False
             res.failed.append(f"audit of {mod} did not complete: {(r.stdout + r.stderr)[-300:]}")
+        elif int(mend.group(1)) != len(res.theorems) - n_before:
+            res.ok = False
+            res.failed.append(f"audit of {mod}: {mend.group(1)} theorems declared, {len(res.theorems) - n_before} audited (output not parsed completely)")
     # thorough tier: independent re-check of the compiled property modules with leanchecker
     if os.environ.get("VERIF_LEANCHECKER") == "1":
         for mod in prop_modules:
